@@ -61,8 +61,15 @@ func c20Gen(c *Ctx, maxTrips int) *journal.Journal {
 		case 2:
 			t.StartTime = time.Unix(0, 0).UTC()
 		}
-		if c.Choose(p+"markedpast", 2) == 1 {
+		switch c.Choose(p+"markedpast", 4) {
+		case 1:
 			mp := time.Unix(int64(1700000900+1000*i), 0).UTC()
+			t.MarkedPast = &mp
+		case 2:
+			mp := time.Unix(0, 0).UTC() // the epoch is a value, not "absent"
+			t.MarkedPast = &mp
+		case 3:
+			mp := time.Unix(-5, 0).UTC()
 			t.MarkedPast = &mp
 		}
 		nStops := (c.Free(p+"stops", 3) + 2) % 3
@@ -84,18 +91,27 @@ func c20Gen(c *Ctx, maxTrips int) *journal.Journal {
 				v := ""
 				st.Track = &v
 			}
-			if c.Choose(q+"arr", 2) == 0 {
-				v := time.Unix(int64(1700000000+1000*i+10*s+1), 0).In(zoneNY)
-				st.ArrivalTime = &v
+			optTime := func(label string, base int64, basePresent bool) *time.Time {
+				k := c.Choose(label, 4)
+				if !basePresent {
+					k = []int{1, 0, 2, 3}[k]
+				}
+				switch k {
+				case 0:
+					v := time.Unix(base, 0).In(zoneNY)
+					return &v
+				case 2:
+					v := time.Unix(0, 0).UTC() // the epoch is a value, not "absent"
+					return &v
+				case 3:
+					v := time.Unix(-7, 0).UTC()
+					return &v
+				}
+				return nil
 			}
-			if c.Choose(q+"dep", 2) == 0 {
-				v := time.Unix(int64(1700000000+1000*i+10*s+2), 0).UTC()
-				st.DepartureTime = &v
-			}
-			if c.Choose(q+"past", 2) == 1 {
-				v := time.Unix(int64(1700000000+1000*i+10*s+3), 0).UTC()
-				st.MarkedPast = &v
-			}
+			st.ArrivalTime = optTime(q+"arr", int64(1700000000+1000*i+10*s+1), true)
+			st.DepartureTime = optTime(q+"dep", int64(1700000000+1000*i+10*s+2), true)
+			st.MarkedPast = optTime(q+"past", int64(1700000000+1000*i+10*s+3), false)
 			t.StopTimes = append(t.StopTimes, st)
 		}
 		j.Trips = append(j.Trips, t)
